@@ -69,8 +69,8 @@ impl StackPointerOffset {
             IntermediateOffset::Bottom => StackPointerOffset::Bottom,
             IntermediateOffset::Value(value) => StackPointerOffset::Value(
                 value
-                    .value_u64()
-                    .ok_or_else(|| Error::Analysis("Stack pointer was not u64".to_string()))?
+                    .value_i64()
+                    .ok_or_else(|| Error::Analysis("Stack pointer was not i64".to_string()))?
                     as isize,
             ),
         })
@@ -186,7 +186,7 @@ impl<'f> fixed_point::FixedPointAnalysis<'f, IntermediateOffset> for StackPointe
                     .ok_or("Unable to get function entry")??;
 
                 if location == function_entry {
-                    IntermediateOffset::Value(il::const_(0, 32))
+                    IntermediateOffset::Value(il::const_(0, self.stack_pointer.bits()))
                 } else {
                     IntermediateOffset::Top
                 }
